@@ -5,6 +5,7 @@ mod compact;
 mod geom;
 mod hilbert;
 mod ids;
+mod purity;
 mod total;
 mod util;
 
@@ -36,6 +37,7 @@ fn main() {
                 "C17" => hilbert::gen_anchors("C17", tier, seed, out),
                 "C12" => hilbert::gen_c12(tier, seed, out),
                 "C14" => total::gen_c14(tier, seed, out, mc, kv.get("release").map(|s| s.as_str())),
+                "C13" => purity::gen_c13(tier, seed, out, mc),
                 "C09" => ids::gen_c09(tier, seed, out, mc, true),
                 _ => {
                     eprintln!("unknown property {}", prop);
@@ -43,6 +45,10 @@ fn main() {
                 }
             };
             util::write_summary(out, &summary);
+        }
+        "c13child" => {
+            util::quiet_panics();
+            purity::child_concurrent(args[2].parse().unwrap(), args[3].parse().unwrap());
         }
         "call" => {
             util::quiet_panics();
